@@ -16,6 +16,9 @@ const (
 	// BaseFec03HeaderSize represents the minium FEC payload's header size including the
 	// required first mask.
 	BaseFec03HeaderSize = 20
+	// maxMediaPackets03 is the number of media packets one FlexFEC-03 repair packet can name:
+	// the three mask fields have 15 + 31 + 63 = 109 positions.
+	maxMediaPackets03 = 109
 	// maxRTPPacketSize represents the maximum size of an RTP packet buffer.
 	// This is a reasonable upper bound for typical RTP packets.
 	maxRTPPacketSize = 1500
@@ -57,8 +60,8 @@ func NewFlexEncoder03(payloadType uint8, ssrc uint32) *FlexEncoder03 {
 // EncodeFec returns a list of generated RTP packets with FEC payloads that protect the specified mediaPackets.
 // This method returns nil in case of missing RTP packets in the mediaPackets array or packets passed out of order.
 func (flex *FlexEncoder03) EncodeFec(mediaPackets []rtp.Packet, numFecPackets uint32) []rtp.Packet {
-	// Check if mediaPackets is empty
-	if len(mediaPackets) == 0 {
+	// Check if mediaPackets is empty, or larger than the 109 positions of the FlexFEC-03 mask
+	if len(mediaPackets) == 0 || len(mediaPackets) > maxMediaPackets03 {
 		return nil
 	}
 
